@@ -5,7 +5,7 @@ PROP = dict(
         level_text="Explicit-state model checking of the real sentPacketHandler (client and server perspective, and behind the uQUIC wrapper uSentPacketHandler) against a ledger reference model: every sequence of API calls up to a depth bound -- sends in the three packet-number spaces with packet numbers taken from Peek/PopPacketNumber (so skipped numbers occur), ack-only / MTU-probe / path-probe packets, ACK frames over every subset of the most recent packet numbers (including skipped, never-sent and not-yet-sent ones), loss-detection timeouts, clock steps, QueueProbePacket, key drops, Retry and 0-RTT rejection -- is executed on the real code; after every call the ledger (each frame reported acked xor lost at most once, never forgotten), bytesInFlight, the PROTOCOL_VIOLATION rule and the loss-timer rule are evaluated. Right level because the property is an invariant over whole histories of a deterministic single-threaded state machine whose inputs can be enumerated on a small alphabet.",
         level_note="Trusted: the ledger model and the canonicaliser (times are dumped relative to the harness clock: the handler, RTT statistics, pacer and cubic only use time differences and zero tests); the random draw of the skipping packet number generator is replaced by the legal value next+3 (every 4th application-data packet number is skipped) so that skips occur inside the bound; sizes 300-700 bytes; at most 4-6 packets per history, ECN disabled, no path migration (MigratedPath), no qlog.",
         technique="explicit-state BFS over the real implementation with ledger reference-model oracle",
-        deadline=dict(quick=120, thorough=900),
+        deadline=dict(quick=170, thorough=900),
         rule="explicit-state BFS over the real sentPacketHandler API; successor = fresh handler + replay of the shortest path + one call; oracle evaluated after every call",
         assumptions=["path-probe packets are not part of bytes in flight (they travel on another path and the code tracks them separately); MTU-probe packets are",
                      "an MTU probe or path probe alone is not 'application data' for the loss-timer clause",
